@@ -178,6 +178,60 @@ static int at_point(int k, int want_fd2, const char *helper)
     return sh->ncalls;
 }
 
+/* (c) an ORDINARY command (one that does not touch its signal mask: sleep, ssh, ...) started while the caller blocks
+ * SIGINT/SIGTSTP/SIGCHLD as every thread of pdsh does (dsh.c:_mask_signals): the mask is inherited across fork and exec
+ * unless _pipecmd's child resets it, and then the forwarded SIGINT stays pending in the command for ever.  No sleeping:
+ * a signal sent before exec is pending across exec; the outcome is decided when the child has exec'd: it dies of SIGINT,
+ * or /proc shows SIGINT blocked in the command (Linux; elsewhere: when it has not died within 2 s). */
+static int blocked_in(pid_t pid)
+{
+    char path[64], line[256], comm[64] = "";
+    unsigned long long blk = 0;
+    FILE *f;
+    snprintf(path, sizeof path, "/proc/%d/status", (int) pid);
+    if (!(f = fopen(path, "r")))
+        return 0;
+    while (fgets(line, sizeof line, f)) {
+        sscanf(line, "Name: %63s", comm);
+        sscanf(line, "SigBlk: %llx", &blk);
+    }
+    fclose(f);
+    return strcmp(comm, "sleep") == 0 && (blk & (1ULL << (SIGINT - 1)));
+}
+
+static void ordinary_command(void)
+{
+    const char *av[] = { "sleep", "3", NULL };
+    int fd, status = 0, rc, i, delivered = 0, decided = 0;
+    void *arg = NULL;
+    pid_t pid;
+    RcmdSigF sigf = execcmd_rcmd_ops.rcmd_signal;
+    remote_argv = av;
+    fd = execcmd("h0", NULL, "user", "user", "unused", 0, NULL, &arg);
+    remote_argv = NULL;
+    if (fd < 0 || arg == NULL) {
+        printf("ordinary-command start-failed\n");
+        return;
+    }
+    pid = ((pipecmd_t) arg)->pid;
+    rc = (*sigf) (-1, arg, SIGINT);
+    for (i = 0; i < 200 && !decided; i++) {
+        if (waitpid(pid, &status, WNOHANG) == pid) {
+            delivered = WIFSIGNALED(status) && WTERMSIG(status) == SIGINT;
+            decided = 1;
+        } else if (blocked_in(pid))
+            break;
+        else
+            usleep(10000);
+    }
+    if (!decided) {
+        kill(pid, SIGKILL);
+        waitpid(pid, &status, 0);
+    }
+    printf("ordinary-command delivered=%d sigf=%d wait=%d\n", delivered, rc, status);
+    fflush(stdout);
+}
+
 int main(int argc, char **argv)
 {
     sigset_t none, blk;
@@ -214,6 +268,12 @@ int main(int argc, char **argv)
     sigaddset(&blk, SIGINT);
     sigaddset(&blk, SIGTSTP);
     sigprocmask(SIG_BLOCK, &blk, NULL);
+    sigaddset(&blk, SIGCHLD);
+    sigprocmask(SIG_BLOCK, &blk, NULL);
+    ordinary_command();
+    sigemptyset(&blk);
+    sigaddset(&blk, SIGCHLD);
+    sigprocmask(SIG_UNBLOCK, &blk, NULL);
     for (s = 0; s <= 1; s++) {
         n = at_point(0, s, argv[1]);
         printf("calls%s %d\n", s ? ":s" : "", n);
